@@ -769,23 +769,96 @@ func ruleDrain(c *Ctx) {
 		c.Check(okPair && nAdd == 1 && okDone, "parseMessage:waitgroup", p.Pos(gs), "wg.Add(1) before the go statement, deferred wg.Done() first in the goroutine", "the WaitGroup of the stage-2 goroutine is not (Add(1) before go, deferred Done first in the goroutine): wg.Wait() returns too early or never", "any document above 8 KiB")
 		// the goroutine is started exactly for the long inputs: `go` sits in the then-branch of len(Message) > threshold
 		okBranch := false
-		for n := ast.Node(gs); n != nil; n = p.Parent(n) {
-			ifs, ok := n.(*ast.IfStmt)
-			if !ok {
-				continue
+		{
+			// form-independent: among the facts that dominate the go statement there is `len(Message) > K` (written as
+			// a then-branch of `>`/`>=`, or as the fall-through of an early exit on `<=`/`<`)
+			fgp := p.FGOf(fd)
+			if gb, _, okw := fgp.Where(gs); okw {
+				for _, ef := range fgp.DominatingFacts(gb) {
+					for _, a := range atomsOf(ef) {
+						be, ok := ast.Unparen(a.E).(*ast.BinaryExpr)
+						if !ok {
+							continue
+						}
+						op := be.Op
+						if a.Neg {
+							op = negateOp(op)
+						}
+						x, y := ast.Unparen(be.X), ast.Unparen(be.Y)
+						if _, lc := p.ConstInt(x); lc {
+							x, y = y, x
+							op = flipOp(op)
+						}
+						if _, rc := p.ConstInt(y); !rc {
+							continue
+						}
+						if call, ok := x.(*ast.CallExpr); ok && p.CalleeName(call) == "len" && strings.HasSuffix(p.Str(call.Args[0]), ".Message") && (op == token.GTR || op == token.GEQ) {
+							okBranch = true
+						}
+					}
+				}
 			}
-			be, isB := ast.Unparen(ifs.Cond).(*ast.BinaryExpr)
-			if !isB {
-				continue
+		}
+		// … and *only* the length decides: the synchronous stage-1 call (the one not under that fact) is reached only with
+		// len(Message) <= K. A condition like `len > K && somethingElse` leaves long inputs on the synchronous branch.
+		if okBranch {
+			fgp := p.FGOf(fd)
+			lenFact := func(blk int, wantGT bool) bool {
+				for _, ef := range fgp.DominatingFacts(blk) {
+					for _, a := range atomsOf(ef) {
+						be, ok := ast.Unparen(a.E).(*ast.BinaryExpr)
+						if !ok {
+							continue
+						}
+						op := be.Op
+						if a.Neg {
+							op = negateOp(op)
+						}
+						x, y := ast.Unparen(be.X), ast.Unparen(be.Y)
+						if _, lc := p.ConstInt(x); lc {
+							x, y = y, x
+							op = flipOp(op)
+						}
+						if _, rc := p.ConstInt(y); !rc {
+							continue
+						}
+						call, ok := x.(*ast.CallExpr)
+						if !ok || p.CalleeName(call) != "len" || !strings.HasSuffix(p.Str(call.Args[0]), ".Message") {
+							continue
+						}
+						if wantGT && (op == token.GTR || op == token.GEQ) || !wantGT && (op == token.LEQ || op == token.LSS) {
+							return true
+						}
+					}
+				}
+				return false
 			}
-			inThen := gs.Pos() >= ifs.Body.Pos() && gs.End() <= ifs.Body.End()
-			l, r := p.Str(be.X), p.Str(be.Y)
-			_, rc := p.ConstInt(be.Y)
-			_, lc := p.ConstInt(be.X)
-			if inThen && ((strings.HasPrefix(l, "len(") && rc && (be.Op == token.GTR || be.Op == token.GEQ)) || (strings.HasPrefix(r, "len(") && lc && (be.Op == token.LSS || be.Op == token.LEQ))) {
-				okBranch = true
+			nSync := 0
+			ast.Inspect(fd.Body, func(n ast.Node) bool {
+				if _, isLit := n.(*ast.FuncLit); isLit {
+					return false
+				}
+				call, ok := n.(*ast.CallExpr)
+				if !ok || !strings.HasSuffix(p.CalleeName(call), "findStructuralIndices") {
+					return true
+				}
+				b, _, okw := fgp.Where(call)
+				if !okw {
+					okBranch = false
+					return true
+				}
+				if lenFact(b, true) {
+					return true // the asynchronous one
+				}
+				nSync++
+				if !lenFact(b, false) {
+					okBranch = false
+				}
+				return true
+			})
+			if nSync == 0 {
+				okBranch = false
 			}
-			break
 		}
 		c.Check(okBranch, "parseMessage:async-for-long", p.Pos(gs), "the concurrent branch is the one taken for inputs longer than the threshold", "the stage-2 goroutine is not started exactly for inputs above the size threshold: long inputs would run stage 1 to completion first and block on the full channel", "a document of several hundred KiB")
 		c.Check(okJoin, "parseMessage:join", p.Pos(gs), "wg.Wait() on every path from the go statement to a return", "a return is reachable from the go statement without wg.Wait(): the stage-2 goroutine may still write the tape after Parse returned", "a large document with a stage-1 error")
@@ -1135,14 +1208,20 @@ func rulePipelineConsts(c *Ctx) {
 				}
 			}
 		case *ast.BinaryExpr:
-			if x.Op == token.GTR || x.Op == token.GEQ {
-				if call, ok := ast.Unparen(x.X).(*ast.CallExpr); ok && p.CalleeName(call) == "len" && strings.HasSuffix(p.Str(call.Args[0]), ".Message") {
-					if v, ok := p.ConstInt(x.Y); ok {
-						thr = v
-						if x.Op == token.GEQ {
-							thr = v - 1
-						}
-						thrNode = x
+			// the async threshold: len(Message) compared with a constant, in any spelling; thr = the largest length
+			// that still takes the synchronous branch
+			xe, ye, op := ast.Unparen(x.X), ast.Unparen(x.Y), x.Op
+			if _, lc := p.ConstInt(xe); lc {
+				xe, ye = ye, xe
+				op = flipOp(op)
+			}
+			if call, ok := xe.(*ast.CallExpr); ok && p.CalleeName(call) == "len" && strings.HasSuffix(p.Str(call.Args[0]), ".Message") {
+				if v, ok := p.ConstInt(ye); ok {
+					switch op {
+					case token.GTR, token.LEQ:
+						thr, thrNode = v, x
+					case token.GEQ, token.LSS:
+						thr, thrNode = v-1, x
 					}
 				}
 			}
@@ -1230,7 +1309,7 @@ func rulePipelineConsts(c *Ctx) {
 					padLen = at.Len()
 				}
 			case *ast.IfStmt:
-				if be, ok := ast.Unparen(x.Cond).(*ast.BinaryExpr); ok && (be.Op == token.LEQ || be.Op == token.LSS) && strings.Contains(p.Str(be.X), "processed") {
+				if be, ok := ast.Unparen(x.Cond).(*ast.BinaryExpr); ok && (be.Op == token.LEQ || be.Op == token.LSS) && strings.Contains(condTextExpanded(p, sfd, be.X), "processed") {
 					if v, ok := p.ConstInt(be.Y); ok {
 						tailMax = v
 						if be.Op == token.LSS {
@@ -1248,7 +1327,7 @@ func rulePipelineConsts(c *Ctx) {
 		nTail := 0
 		ast.Inspect(sfd.Body, func(n ast.Node) bool {
 			ifs, ok := n.(*ast.IfStmt)
-			if !ok || !strings.Contains(p.Str(ifs.Cond), "processed") || !strings.Contains(p.Str(ifs.Cond), "64") {
+			if !ok || !strings.Contains(condTextExpanded(p, sfd, ifs.Cond), "processed") || !strings.Contains(p.Str(ifs.Cond), "64") {
 				return true
 			}
 			ast.Inspect(ifs.Body, func(m ast.Node) bool {
@@ -1268,7 +1347,7 @@ func rulePipelineConsts(c *Ctx) {
 		var inTail func(n ast.Node) bool
 		inTail = func(n ast.Node) bool {
 			for q := p.Parent(n); q != nil; q = p.Parent(q) {
-				if ifs, ok := q.(*ast.IfStmt); ok && strings.Contains(p.Str(ifs.Cond), "processed") && strings.Contains(p.Str(ifs.Cond), "64") {
+				if ifs, ok := q.(*ast.IfStmt); ok && strings.Contains(condTextExpanded(p, sfd, ifs.Cond), "processed") && strings.Contains(p.Str(ifs.Cond), "64") {
 					return true
 				}
 			}
@@ -1389,6 +1468,8 @@ func ruleEnd(c *Ctx) {
 				hasRange = true
 			case strings.HasPrefix(s, "!(") && strings.Contains(s, "buf[position]=='}'") && strings.Contains(s, "buf[position]==']'") && strings.Contains(s, "||"):
 				hasClose = true
+			case strings.Contains(s, "buf[position]!='}'") && strings.Contains(s, "buf[position]!=']'") && strings.Contains(s, "&&") && !strings.Contains(s, "||"):
+				hasClose = true // the same test in negation normal form
 			}
 		}
 		setsErr := false
@@ -1479,16 +1560,26 @@ func ruleCursor(c *Ctx) {
 			if cd.Other == "!"+termTest {
 				notDone = true
 			}
+			// the same test written as a plain comparison (`if cur.index == -1 { return true, 0 }`)
+			if cd.Other == "" && cd.L.String() == D+".index" && cd.R.IsConst() && cd.R.K == -1 {
+				if cd.Op == token.EQL {
+					isDone = true
+				}
+				if cd.Op == token.NEQ {
+					notDone = true
+				}
+			}
 			if cd.Other != "" && cd.Other != termTest && cd.Other != "!"+termTest && strings.Contains(cd.Other, ".index") {
 				okAll = false
 				why = "the terminator test is " + cd.Other + ", expected index == -1 on the received buffer"
 			}
 		}
-		if received && doneA != termTest {
+		isFalse := doneA == "zero:done" || doneA == "false" || sp.Ret[0].IsConst() && sp.Ret[0].K == 0
+		if received && !(doneA == termTest || (doneA == "true" && isDone && !notDone) || (isFalse && notDone && !isDone)) {
 			okAll = false
 			why = "after a receive `done` is " + sp.Ret[0].String() + ", expected (index == -1) of the received buffer"
 		}
-		if !received && !(doneA == "zero:done" || sp.Ret[0].IsConst() && sp.Ret[0].K == 0) {
+		if !received && !isFalse {
 			okAll = false
 			why = "`done` is set without a receive: " + sp.Ret[0].String()
 		}
@@ -1552,8 +1643,8 @@ func ruleCursor(c *Ctx) {
 			continue
 		}
 		for _, ef := range sp.Effects {
-			if ef.Kind == "store" {
-				okPeek = false
+			if ef.Kind == "store" && !strings.HasPrefix(ef.Target, "L:") {
+				okPeek = false // a store to anything but a local of its own
 			}
 		}
 		a, single := sp.Ret[0].SingleAtom()
@@ -1683,3 +1774,40 @@ func isTerminatorGuard(p *GoProg, g ast.Expr) bool {
 	return (isIdx(be.X) && isM1(be.Y)) || (isIdx(be.Y) && isM1(be.X))
 }
 
+
+// condTextExpanded prints a condition with every local that has exactly one definition `x := e` in fd replaced by (e):
+// a hoisted sub-expression then reads like the condition it came from.
+func condTextExpanded(p *GoProg, fd *ast.FuncDecl, e ast.Expr) string {
+	defs := map[types.Object]ast.Expr{}
+	count := map[types.Object]int{}
+	ast.Inspect(fd.Body, func(n ast.Node) bool {
+		switch x := n.(type) {
+		case *ast.AssignStmt:
+			for i, l := range x.Lhs {
+				if id, ok := l.(*ast.Ident); ok {
+					if o := p.ObjOf(id); o != nil {
+						count[o]++
+						if x.Tok == token.DEFINE && len(x.Lhs) == len(x.Rhs) {
+							defs[o] = x.Rhs[i]
+						}
+					}
+				}
+			}
+		case *ast.IncDecStmt:
+			if id, ok := x.X.(*ast.Ident); ok {
+				count[p.ObjOf(id)] += 2
+			}
+		}
+		return true
+	})
+	s := p.Str(e)
+	ast.Inspect(e, func(n ast.Node) bool {
+		if id, ok := n.(*ast.Ident); ok {
+			if o := p.Info.Uses[id]; o != nil && count[o] == 1 && defs[o] != nil {
+				s = strings.ReplaceAll(s, id.Name, "("+p.Str(defs[o])+")")
+			}
+		}
+		return true
+	})
+	return s
+}
